@@ -23,6 +23,9 @@ type Listener struct {
 	shutdown    chan struct{}
 	HandleConn  func(l *Listener, c net.Conn)
 	HandleData  func(l *Listener, data []byte, src net.Addr)
+
+	// mu guards tcpList / udpConn: run() replaces them when it reopens, the shutdown goroutine closes them
+	mu sync.Mutex
 }
 
 // NewListener creates a new listener.
@@ -51,13 +54,14 @@ func (l *Listener) Start() error {
 	}
 
 	l.wg.Add(2)
-	go l.run("tcp", l.acceptTcp, l.listenTcp, l.tcpList)
-	go l.run("udp", l.consumeUdp, l.listenUdp, l.udpConn)
+	go l.run("tcp", l.acceptTcp, l.listenTcp, func() Closable { return l.tcpList })
+	go l.run("udp", l.consumeUdp, l.listenUdp, func() Closable { return l.udpConn })
 
 	return nil
 }
 
-func (l *Listener) run(proto string, consume func(), listen func() error, listener Closable) {
+// current returns the socket that is in use now (it changes when run reopens after an error)
+func (l *Listener) run(proto string, consume func(), listen func() error, current func() Closable) {
 	defer l.wg.Done()
 
 	backoffCounter := &backoff.Backoff{
@@ -68,7 +72,9 @@ func (l *Listener) run(proto string, consume func(), listen func() error, listen
 	go func() {
 		<-l.shutdown
 		log.Infof("shutting down %v/%s, closing socket", l.addr, proto)
-		listener.Close()
+		l.mu.Lock()
+		current().Close()
+		l.mu.Unlock()
 	}()
 
 	for {
@@ -83,8 +89,19 @@ func (l *Listener) run(proto string, consume func(), listen func() error, listen
 		}
 		for {
 			log.Infof("reopening %v/%s", l.addr, proto)
+			l.mu.Lock()
 			err := listen()
+			l.mu.Unlock()
 			if err == nil {
+				// shutdown may have been signalled while there was no socket to close
+				select {
+				case <-l.shutdown:
+					l.mu.Lock()
+					current().Close()
+					l.mu.Unlock()
+					return
+				default:
+				}
 				backoffCounter.Reset()
 				break
 			}
@@ -107,10 +124,11 @@ func (l *Listener) listenTcp() error {
 	if err != nil {
 		return err
 	}
-	l.tcpList, err = net.ListenTCP("tcp", laddr)
+	tcpList, err := net.ListenTCP("tcp", laddr)
 	if err != nil {
 		return err
 	}
+	l.tcpList = tcpList
 	return nil
 }
 
@@ -174,10 +192,11 @@ func (l *Listener) listenUdp() error {
 	if err != nil {
 		return err
 	}
-	l.udpConn, err = net.ListenUDP("udp", udp_addr)
+	udpConn, err := net.ListenUDP("udp", udp_addr)
 	if err != nil {
 		return err
 	}
+	l.udpConn = udpConn
 	return nil
 }
 
